@@ -1,0 +1,16 @@
+//go:build !verif
+
+package desync
+
+import "os"
+
+// No-op counterparts of the hooks in verif_hooks.go.
+
+type verifNoCloner interface {
+	CanClone(dstFile, srcFile string) bool
+	CloneRange(dst, src *os.File, srcOffset, srcLength, dstOffset uint64) error
+}
+
+func verifYield(site string) {}
+
+func verifCloner() verifNoCloner { return nil }
